@@ -78,6 +78,12 @@ def impl(case):
         else:
             convolve_model_dir(d, pkgcase.make_filters(pkg))
         conv = {n: pkgcase.read_convolved(d, n) for n in names}
+        grid = None
+        if case['fmt'] == 'v1' and case['mode'] == '2d':
+            # the model grid as Models.read puts it together from the convolved files (ReadM.read_files answers for it)
+            from sedfitter.models import Models
+            mm = Models.read(d, [dict(name=n, aperture_arcsec=3.0) for n in names])
+            grid = dict(names=[str(x).strip() for x in mm.names], flux=[[float(v) for v in row] for row in np.asarray(mm.fluxes.to(u.mJy).value)])
         ext = fitcase.make_extinction(case['ext'])
         wavs = np.array([f['wav'] for f in pkg['filters']]) * u.micron       # the filters' own central wavelengths (not what the convolved files say)
         ks = np.asarray(ext.get_av(wavs))
@@ -128,7 +134,7 @@ def impl(case):
         write_parameters(out, txt, select_format=('N', 1))
         lines = [l.split() for l in open(txt).read().split('\n')[3:] if l.strip()][2 * len(decoys):]
     return dict(rec=dict(model_name=rec['model_name'][:3], av=rec['av'][:3], sc=rec['sc'][:3], chi2=rec['chi2'][:3]), listing=lines[:2], d0=d0, ks=[float(x) for x in ks],
-                data=cols, filtwav=[conv[n]['filtwav'] for n in names], conv={n: conv[n] for n in names})
+                data=cols, filtwav=[conv[n]['filtwav'] for n in names], conv={n: conv[n] for n in names}, grid=grid)
 
 
 MODEL_NEEDS_IMPL = True
@@ -162,7 +168,12 @@ def model_requests(case, im):
     nm = len(pkg['par_order'])
     if case['mode'] == '2d':
         models = [[rows[j][i][1][0] for j in range(3)] for i in range(nm)]
-        return [('fit2_pkg', [ext, F(fitcase.V_UM), wavs, lo, hi, raws, models])]
+        reqs2 = [('fit2_pkg', [ext, F(fitcase.V_UM), wavs, lo, hi, raws, models])]
+        if im.get('grid'):
+            # the convolved files as the implementation wrote them (row order of each file), keyed by name
+            files = [[[pkgcase.key(nme), [F(v) for v in fl]] for nme, fl in zip(im['conv'][f['name']]['names'], im['conv'][f['name']]['flux'])] for f in pkg['filters']]
+            reqs2.append(('read_files', [files]))
+        return reqs2
     ds, logds = fitcase.grid_of(case)
     models = [[[[F(a), rows[j][i][1][t]] for t, a in enumerate(pkg['aps'])] for j in range(3)] for i in range(nm)]
     return [('fit3_pkg', [ext, F(fitcase.V_UM), wavs, lo, hi, raws, [F(t) for t in case['theta']], [F(x) for x in ds], [F(x) for x in logds], models])]
@@ -225,6 +236,31 @@ def judge(case, im, mo):
             r = res[best]
             if abs(rec['av'][0] - float(r[0])) > tol_av or abs(rec['sc'][0] - float(r[1])) > tol_sc:
                 disagree.append('first record (A_V, scale) = (%r, %r), model (%r, %r)' % (rec['av'][0], rec['sc'][0], float(r[0]), float(r[1])))
+    # ---- the grid put together from the convolved files (ReadM.read_files)
+    if im.get('grid') and len(mo) > 1:
+        g = mo[1]
+        tags.append('grid')
+        if isinstance(g, tuple) or g == []:
+            disagree.append('model read_files refuses the files (%r)' % (g,))
+        else:
+            keys = [pkgcase.key(n) for n in im['grid']['names']]
+            for j, col in enumerate(g[0]):
+                if [int(r[0]) for r in col] != keys:
+                    disagree.append('grid: model order of band %d is %r, implementation %r' % (j, [int(r[0]) for r in col], keys))
+                    break
+                if any(abs(float(r[1][0]) - im['grid']['flux'][i][j]) > 1e-12 * abs(float(r[1][0])) for i, r in enumerate(col)):
+                    disagree.append('grid: fluxes of band %d differ from the by-name rows of its convolved file' % j)
+                    break
+            # property side: the row of the grid labelled X carries X's own flux of every file
+            for i, nme in enumerate(im['grid']['names']):
+                for j, f in enumerate(pkg['filters']):
+                    cf = im['conv'][f['name']]
+                    own = cf['flux'][cf['names'].index(nme)][0]
+                    if abs(own - im['grid']['flux'][i][j]) > 1e-12 * abs(own):
+                        fail.append('grid: the model grid holds %r for model %s in band %s; the convolved file lists %r for that model' % (im['grid']['flux'][i][j], nme, f['name'], own))
+                        break
+                if fail:
+                    break
     # ---- property
     if rec['model_name'][0] != case['planted']:
         fail.append('first: model %s is ranked first, %s was planted' % (rec['model_name'][0], case['planted']))
